@@ -237,7 +237,20 @@ def run(prog, rep):
                 if v1 != 1 or v2 != 0:
                     okr, msg = False, "result is not TRUE exactly when %s returned 0 (success -> %s, failure -> %s)" % (native, v1, v2)
         rep.ob("C06.3", fn, "result", okr, "TRUE exactly when %s returned 0" % native if okr else msg, fn.loc[0])
-    rep.floor("C06.3", 6)
+    # the wait is transparent to signals: an interrupted sem_wait is re-issued (same engine as C19.1)
+    from plint.retry import check_retry
+    aq = u.fn("p_semaphore_acquire")
+    for b, i, s_ in aq.stmts():
+        for c in calls(s_):
+            if c.get("callee") == "sem_wait":
+                check_retry(rep, "C06.3", aq, b, i, c, "call:sem_wait:eintr")
+    for b, i, s_ in ch.stmts():
+        k = 0
+        for c in calls(s_):
+            if c.get("callee") == "sem_open":
+                k += 1
+                check_retry(rep, "C06.3", ch, b, i, c, "call:sem_open@%d:eintr" % line(c))
+    rep.floor("C06.3", 9)
 
     # ---- C06.4 identity --------------------------------------------------------
     nw = u.fn("p_semaphore_new")
@@ -291,6 +304,8 @@ SELFTEST = [
          old="\tif (P_LIKELY (sem->platform_key != NULL))\n\t\tp_free (sem->platform_key);\n\n\tp_free (sem);", new="\tp_free (sem);"),
     dict(id="release-calls-wait", file="src/psemaphore-posix.c", expect="C06.3",
          old="\tret = (sem_post (sem->sem_hdl) == 0);", new="\tret = (sem_wait (sem->sem_hdl) == 0);"),
+    dict(id="acquire-eintr-not-retried", file="src/psemaphore-posix.c", expect="C06.3",
+         old="\twhile ((res = sem_wait (sem->sem_hdl)) == -1 && p_error_get_last_system () == EINTR)\n\t\t;", new="\tres = sem_wait (sem->sem_hdl);"),
     dict(id="acquire-inverted", file="src/psemaphore-posix.c", expect="C06.3",
          old="\tret = (res == 0);", new="\tret = (res != 0);"),
     dict(id="key-from-other-string", file="src/psemaphore-posix.c", expect="C06.4",
